@@ -6,7 +6,7 @@ import OtelVerif.Model.LogRecord
     procs : string over {s,b} (simple / batch), 1–8;  res : hex tag of the provider's resource
     scope : <namehex>/<versionhex>/<schemahex> of the enabled logger (name not empty)
     op    : push <t> <tid>/<sid>/<fl> | pushc <t> <tid>/<sid>/<fl> | pop <t>          (thread t in 0..2)
-          | create <t> <e|d> <rid> | set <rid> <arg> | emit <t> <e|d> <new|null|rid> [<arg> [<arg>]]
+          | create <t> <e|d> <rid> | set <rid> <arg> | emit <t> <e|d> <new|new:via|null|rid> [<arg> [<arg>]]
           | scribble <buf> | free <buf> | flush
     arg   : sev:<0..255> | eid:<int64> | eid:<int64>:<namehex> | ctx:<tid>/<sid>/<fl> | sid:<16hex> | tid:<32hex> | fl:<2hex>
           | ts:<int64> | tp:<int64> | attrs#<buf>/<attrs> | attrsb#<buf>/<attrs>
@@ -78,8 +78,14 @@ def parseLogOp : List String → Option Op
   | ["pop", t] => do pure (.pop (← parseThread t))
   | ["create", t, e, r] => do pure (.create (← parseThread t) (← parseEnabled e) (← parseRid r))
   | ["set", r, a] => do pure (.set (← parseRid r) (← parseArg a))
-  | "emit" :: t :: e :: target :: args => do
-    if args.length > 2 then none
+  | "emit" :: t :: e :: target0 :: args => do
+    -- `new:<via>`: the same record, emitted through one of the convenience entry points of logs::Logger (Trace … Fatal,
+    -- Log(severity, …)); they are the variadic EmitLogRecord with up to four arguments, so the model sees a plain emit
+    let (target, via) := (match target0.splitOn ":" with
+      | [a, b] => (a, some b)
+      | _ => (target0, none))
+    if via.isSome && target != "new" then none
+    if args.length > (if via.isSome then 4 else 2) then none
     let target ← (if target = "new" then some Target.fresh else if target = "null" then some Target.null
                   else (parseRid target).map Target.existing)
     pure (.emit (← parseThread t) (← parseEnabled e) target (← args.mapM parseArg))
